@@ -666,13 +666,14 @@ func (r *stack) transfer(dest *stack) (ok bool) {
 	// xfer slices, without any regard for
 	// nilness. Slice type is not subject
 	// to discrimination.
+	before := dest.ulen()
 	for i := 0; i < r.ulen(); i++ {
 		sl, _, _ := r.index(i) // cfg offset handled by index method
 		dest.push(sl)
 	}
 
 	// return result
-	ok = dest.ulen() >= r.ulen()
+	ok = dest.ulen() == before+r.ulen()
 
 	return
 }
